@@ -423,6 +423,113 @@ pub mod evo_i {
         fn boxed_cb_ret_changed(&self, f: Box<dyn Fn(u32) -> String>) -> u32;
     }
 }
+// two versions of a #[repr(C)] struct whose memory layouts are structurally identical although the field at
+// offset 4 means something else (b0 removed, n2 added in version 2): a reference must not be handed over raw
+pub mod alias_v1 {
+    use super::*;
+    #[derive(savefile_derive::Savefile, Debug, Clone, PartialEq)]
+    #[repr(C)]
+    pub struct P {
+        pub n1: u32,
+        pub b0: u32,
+    }
+    #[savefile_abi_exportable(version = 1)]
+    pub trait Alias {
+        fn by_ref(&self, p: &P) -> u64;
+        fn by_val(&self, p: P) -> u64;
+        fn slice(&self, p: &[P]) -> u64;
+    }
+}
+pub mod alias_v2 {
+    use super::*;
+    #[derive(savefile_derive::Savefile, Debug)]
+    #[repr(C)]
+    pub struct P {
+        pub n1: u32,
+        #[savefile_versions = "2.."]
+        pub n2: u32,
+        #[savefile_versions = "..1"]
+        pub b0: savefile::AbiRemoved<u32>,
+    }
+    #[savefile_abi_exportable(version = 2)]
+    pub trait Alias {
+        fn by_ref(&self, p: &P) -> u64;
+        fn by_val(&self, p: P) -> u64;
+        fn slice(&self, p: &[P]) -> u64;
+    }
+}
+pub struct AliasImpl;
+impl alias_v1::Alias for AliasImpl {
+    fn by_ref(&self, p: &alias_v1::P) -> u64 {
+        ((p.n1 as u64) << 32) | p.b0 as u64
+    }
+    fn by_val(&self, p: alias_v1::P) -> u64 {
+        ((p.n1 as u64) << 32) | p.b0 as u64
+    }
+    fn slice(&self, p: &[alias_v1::P]) -> u64 {
+        p.iter().fold(0u64, |a, x| a.wrapping_mul(31).wrapping_add(((x.n1 as u64) << 32) | x.b0 as u64))
+    }
+}
+impl alias_v2::Alias for AliasImpl {
+    fn by_ref(&self, p: &alias_v2::P) -> u64 {
+        ((p.n1 as u64) << 32) | p.n2 as u64
+    }
+    fn by_val(&self, p: alias_v2::P) -> u64 {
+        ((p.n1 as u64) << 32) | p.n2 as u64
+    }
+    fn slice(&self, p: &[alias_v2::P]) -> u64 {
+        p.iter().fold(0u64, |a, x| a.wrapping_mul(31).wrapping_add(((x.n1 as u64) << 32) | x.n2 as u64))
+    }
+}
+
+fn layout_aliasing(ctx: &mut Ctx) {
+    use alias_v1::Alias as _;
+    use alias_v2::Alias as _;
+    let mut rng = Rng::derive(ctx.seed, "c10/alias");
+    // caller v1 -> implementation v2: negotiated version 1; the implementation must see n2 = 0 (its default)
+    let r = vcore::util::catch(|| unsafe { AbiConnection::<dyn alias_v1::Alias>::from_boxed_trait_for_test(<dyn alias_v2::Alias as AbiExportable>::ABI_ENTRY, Box::new(AliasImpl) as Box<dyn alias_v2::Alias>) });
+    match r {
+        Ok(Ok(conn)) => {
+            for _ in 0..ctx.t(20, 200) {
+                let p = alias_v1::P { n1: rng.next_u64() as u32, b0: (rng.next_u64() as u32) | 1 };
+                let want = (p.n1 as u64) << 32;
+                let want_slice = [p.clone(), p.clone()].iter().fold(0u64, |a, x| a.wrapping_mul(31).wrapping_add((x.n1 as u64) << 32));
+                for (m, got, want) in [("by_ref", vcore::util::catch(std::panic::AssertUnwindSafe(|| conn.by_ref(&p))), want), ("by_val", vcore::util::catch(std::panic::AssertUnwindSafe(|| conn.by_val(p.clone()))), want), ("slice", vcore::util::catch(std::panic::AssertUnwindSafe(|| conn.slice(&[p.clone(), p.clone()]))), want_slice)] {
+                    ctx.eval();
+                    ctx.distinct(&format!("alias|1->2|{}", m));
+                    if got == Ok(want) {
+                        ctx.count("aliasing_layouts_seen_through_negotiated_version");
+                    } else {
+                        ctx.violation("C10:field-of-other-version-read-through-identical-layout", "Alias:caller-v1/impl-v2", J::obj(vec![("method", J::s(m)), ("argument", J::s(format!("{:?}", p))), ("implementation_should_see", J::s(format!("P {{ n1: {}, n2: 0 }} (n2 was added in version 2; b0 does not exist there)", p.n1))), ("observed", J::s(format!("returned {:?}, expected {:#x}", got.map(|x| format!("{:#x}", x)), want)))]));
+                    }
+                }
+            }
+        }
+        other => ctx.violation("C10:compatible-versions-fail-to-connect", "Alias:caller-v1/impl-v2", J::obj(vec![("observed", J::s(format!("{:?}", other.map(|x| x.map(|_| "conn")))))])),
+    }
+    // caller v2 -> implementation v1: the implementation must see b0 = 0 (value constructor of the removed field)
+    let r = vcore::util::catch(|| unsafe { AbiConnection::<dyn alias_v2::Alias>::from_boxed_trait_for_test(<dyn alias_v1::Alias as AbiExportable>::ABI_ENTRY, Box::new(AliasImpl) as Box<dyn alias_v1::Alias>) });
+    match r {
+        Ok(Ok(conn)) => {
+            for _ in 0..ctx.t(20, 200) {
+                let (n1, n2) = (rng.next_u64() as u32, (rng.next_u64() as u32) | 1);
+                let p = alias_v2::P { n1, n2, b0: savefile::AbiRemoved::new() };
+                let want = (p.n1 as u64) << 32;
+                for (m, got) in [("by_ref", vcore::util::catch(std::panic::AssertUnwindSafe(|| conn.by_ref(&p)))), ("by_val", vcore::util::catch(std::panic::AssertUnwindSafe(|| conn.by_val(alias_v2::P { n1, n2, b0: savefile::AbiRemoved::new() }))))] {
+                    ctx.eval();
+                    ctx.distinct(&format!("alias|2->1|{}", m));
+                    if got == Ok(want) {
+                        ctx.count("aliasing_layouts_seen_through_negotiated_version");
+                    } else {
+                        ctx.violation("C10:field-of-other-version-read-through-identical-layout", "Alias:caller-v2/impl-v1", J::obj(vec![("method", J::s(m)), ("argument", J::s(format!("{:?}", p))), ("implementation_should_see", J::s(format!("P {{ n1: {}, b0: 0 }}", p.n1))), ("observed", J::s(format!("returned {:?}, expected {:#x}", got.map(|x| format!("{:#x}", x)), want)))]));
+                    }
+                }
+            }
+        }
+        other => ctx.violation("C10:compatible-versions-fail-to-connect", "Alias:caller-v2/impl-v1", J::obj(vec![("observed", J::s(format!("{:?}", other.map(|x| x.map(|_| "conn")))))])),
+    }
+}
+
 // nested interfaces (boxed trait object arguments) whose method sets differ between the two sides
 pub mod objs_small {
     use super::*;
@@ -616,6 +723,7 @@ impl evo_e::Evolve for EvoImpl {
 }
 
 fn method_presence(ctx: &mut Ctx) {
+    layout_aliasing(ctx);
     use evo_a::Evolve as A;
     // caller A, implementation B: methods differ, connecting must work; common works; only_in_a panics naming the method
     ctx.eval();
